@@ -12,7 +12,10 @@ use crate::{
 ///
 /// * The highest (most-significant) bit of the divisor MUST be set.
 /// * The `divisor` and `numerator` MUST each be at least two limbs.
-/// * `numerator` MUST contain at at least as many elements as `divisor`.
+/// * `numerator` MUST contain more elements than `divisor`: the quotient is
+///   stored in the limbs above the lowest `divisor.len()` ones.
+/// * The highest `divisor.len()` limbs of `numerator` MUST be less than
+///   `divisor`, so that the quotient fits those limbs.
 ///
 /// # Panics
 ///
@@ -21,7 +24,11 @@ use crate::{
 #[allow(clippy::many_single_char_names)]
 pub fn div_nxm_normalized(numerator: &mut [u64], divisor: &[u64]) {
     debug_assert!(divisor.len() >= 2);
-    debug_assert!(numerator.len() >= divisor.len());
+    debug_assert!(numerator.len() > divisor.len());
+    debug_assert!(
+        crate::algorithms::cmp(&numerator[numerator.len() - divisor.len()..], divisor)
+            == core::cmp::Ordering::Less
+    );
     debug_assert!(*divisor.last().unwrap() >= (1 << 63));
 
     let n = divisor.len();
